@@ -1882,7 +1882,11 @@ func verifRunC30(c *verifsim.Ctx) {
 		s.plantOp()
 	}
 
-	nops := 1 + c.Draw("nops", 16)
+	maxOps := 16
+	if c.Tier == "thorough" {
+		maxOps = 48
+	}
+	nops := 1 + c.Draw("nops", maxOps)
 	for i := 0; i < nops && len(c.Violations) == 0; i++ {
 		if s.mode == 0 {
 			s.entryOp()
